@@ -14,7 +14,7 @@ NAME = "imusim"
 SIM_UNIT = "IMU frames"
 BUDGET = {"quick": {"runs": 2200, "wall": 80}, "thorough": {"runs": 60000, "wall": 1200}}
 SHRINK_LISTS = ("ops",)
-PROBES = {"C16": ["layout:strided", "layout:expanded-dt", "explicit-init-state", "reset=True-repeat", "chunk-of-one", "all-singletons", "F-not-pow2-minus-1", "rank-FH", "rank-H", "known-rot",
+PROBES = {"C16": ["per-axis-noise-cov", "layout:strided", "layout:expanded-dt", "explicit-init-state", "reset=True-repeat", "chunk-of-one", "all-singletons", "F-not-pow2-minus-1", "rank-FH", "rank-H", "known-rot",
                   "integrated-rot+gravity", "zero-gravity", "float32", "batch>1", "nonidentity-init"]}
 
 # tolerance constants: calibrated on the repaired tree, worst observed ratio noted in DESIGN.md
@@ -34,7 +34,8 @@ def generate(seed, tier, prop="C16"):
            "gyro_scale": r.choice([0.0, 0.05, 0.5, 3.0]), "acc_scale": r.choice([0.0, 1.0, 10.0]),
            "known_rot": r.random() < 0.35, "gravity": r.choice([9.81007, 9.81007, 0.0, 1.62]),
            "init": r.random() < 0.6, "init_batched": r.random() < 0.4, "explicit": r.random() < 0.4,
-           "layout": r.choice(["plain", "plain", "strided", "expanded-dt"])}
+           "layout": r.choice(["plain", "plain", "strided", "expanded-dt"]),
+           "noise_cov": r.choice(["default", "default", "ctor-per-axis", "call-per-axis"])}
     ro = rng.stream(seed, "ops")
     style = ro.choice(["few", "few", "many", "singletons", "head1", "tail1"])
     cuts = set()
@@ -77,7 +78,7 @@ def simplify(plan):
     if c["B"] > 1:
         cands.append({**plan, "config": dict(c, B=1)})
     for k, v in (("dtype", "f64"), ("known_rot", False), ("gravity", 0.0), ("init", False), ("dt_mode", "const"),
-                 ("gyro_scale", 0.0), ("acc_scale", 0.0), ("layout", "plain"), ("explicit", False)):
+                 ("gyro_scale", 0.0), ("acc_scale", 0.0), ("layout", "plain"), ("explicit", False), ("noise_cov", "default")):
         if c.get(k) != v:
             cands.append({**plan, "config": dict(c, **{k: v})})
     return cands
@@ -191,8 +192,16 @@ def execute(plan, prop, out, tr):
         out.probe("integrated-rot+gravity")
     out.fault("fragmentation-cut", len(cuts))
 
+    # sensor noise: the scalar defaults, or per-axis covariances (three unequal entries) at construction / per call
+    nc = c.get("noise_cov", "default")
+    gcov = torch.tensor([[2.0e-3, 5.0e-4, 9.0e-3]], dtype=dtype); acov = torch.tensor([[6.0e-3, 1.0e-3, 3.0e-2]], dtype=dtype)
+    ctor_kw = {"gyro_cov": gcov.clone(), "acc_cov": acov.clone()} if nc == "ctor-per-axis" else {}
+    call_kw = {"gyro_cov": gcov.expand(B, 1, 3).clone(), "acc_cov": acov.expand(B, 1, 3).clone()} if nc == "call-per-axis" else {}
+    if nc != "default":
+        out.probe("per-axis-noise-cov")
+
     def mk():
-        m = pp.module.IMUPreintegrator(pos=p0.clone(), rot=r0.clone(), vel=v0.clone(), gravity=g, reset=False)
+        m = pp.module.IMUPreintegrator(pos=p0.clone(), rot=r0.clone(), vel=v0.clone(), gravity=g, reset=False, **ctor_kw)
         return m.double() if dtype == torch.float64 else m
 
     # --- reference (gravity as the module holds it: the constructor stores it in float32)
@@ -236,7 +245,7 @@ def execute(plan, prop, out, tr):
         return worst
 
     def feed(m, lo, hi, rank):
-        kw = {}
+        kw = dict(call_kw) if rank == "BFH" else {}
         if rank == "BFH":
             a = (dt[:, lo:hi], gyro[:, lo:hi], acc[:, lo:hi])
             if rot_known is not None:
